@@ -635,7 +635,14 @@ static void part_pot(vfh::Rng &rng, vfh::Reporter &R, long ncases, const std::st
         }
         double f0 = pf.CalculateF(x), f1 = pf.CalculateF(x * (1 + 1e-9)), f2 = pf.CalculateF(x * (1 - 1e-9));
         double lo = std::min(f0, std::min(f1, f2)), hi = std::max(f0, std::max(f1, f2));
-        double tol = 1e-9 * std::max(std::fabs(lo), std::fabs(hi)) + 1e-300;
+        // rounding of the sum of terms: scale = magnitude of the individual terms (inputs), not of the result
+        double tsc = 0;
+        if (type == 2) { for (Index q = 0; q < pf.getParamSize(); ++q) tsc = std::max(tsc, std::fabs(pf.getParam(q))); }
+        else {
+          tsc = std::fabs(pf.getParam(0)) / std::pow(x, 12) + std::fabs(pf.getParam(1)) / std::pow(x, 6);
+          if (type == 1) tsc += std::fabs(pf.getParam(2)) * std::exp(std::min(700.0, -pf.getParam(3) * (x - pf.getParam(4)) * (x - pf.getParam(4))));
+        }
+        double tol = 1e-9 * std::max(std::fabs(lo), std::fabs(hi)) + 1e-9 * tsc * 1e-3 + 1e-300;
         if (!(t.y(k) >= lo - tol && t.y(k) <= hi + tol)) {
           if (!bad++) R.violation(P.type + "/pottab/value", "tabulated potential differs from CalculateF on the requested grid", J().raw("case", w.str()).i("index", k).d("x", t.x(k)).d("got", t.y(k)).d("expected", f0));
         }
